@@ -2,7 +2,7 @@
 import ast
 import inspect
 import random
-from .. import gramgen, recog
+from .. import gramgen, recog, gen
 from ..real import Real
 from ..observe import Ctx, SCRIPT_FN, StepBudget
 from ..refA import RESERVED
@@ -44,6 +44,7 @@ def setup(tier, seed):
 
 PYNAMES = ['True', 'False', 'None', '__debug__', 'ATOM_NIL', '__builtins__', '__import__', '__name__', 'True_', 'None_',
            'ATOM_NIL_', 'Exception', 'NotImplemented', 'Ellipsis', '__class__', '_', '__', 'X1', 'Arg1', 'L1', 'DoBreak', 'CutIf1']
+PYNAMES = PYNAMES + [v for v in gen.NEAR_RESERVED if v not in PYNAMES]
 KEYWORDS = ['class', 'def', 'if', 'for', 'import', 'lambda', 'pass', 'yield', 'return', 'while', 'not', 'is', 'in',
             'query', 'atom', 'variable', 'unify', 'functor', 'makelist', 'match_dynamic', 'listpair', 'x1', 'arg1', 'l1',
             'doBreak', 'cutIf1', 'print', 'eval', 'exec', 'self']
